@@ -534,6 +534,28 @@ const (
 // state, not a timeout; the stacks are in Wire.Deadlock.
 const QDeadlock = "deadlock"
 
+// GiveUp abandons a connection whose handlers are known to be deadlocked:
+// nothing will ever finish, so the remaining watchdogs are not sat through;
+// the stuck goroutines are remembered as leaked (later cases do not count
+// them again).
+func (w *Wire) GiveUp() {
+	w.Abort()
+	w.R.B.ReleaseAll()
+	w.R.ForceClose()
+	for _, g := range ServerGoroutines() {
+		knownLeaked[goroutineID(g)] = true
+	}
+}
+
+// DeadlockNow evaluates the state-based deadlock criterion once (for drivers
+// that do not go through WaitQuiet) and returns the stacks, or "".
+func (w *Wire) DeadlockNow() string {
+	if st := w.deadlockStacks(); st != nil {
+		return strings.Join(st, "\n\n")
+	}
+	return ""
+}
+
 // deadlockStacks returns the stacks when the state-based deadlock criterion
 // holds, else nil.
 func (w *Wire) deadlockStacks() []string {
@@ -559,7 +581,7 @@ func (w *Wire) deadlockStacks() []string {
 			return nil
 		}
 		for _, g := range live {
-			if strings.Contains(g, "harness.(*End).Read") || strings.Contains(g, "harness.(*Backend).waitGate") || strings.Contains(g, "time.Sleep") {
+			if strings.Contains(g, "harness.(*End).Read") || strings.Contains(g, "harness.(*End).Write") || strings.Contains(g, "harness.(*Backend).waitGate") || strings.Contains(g, "time.Sleep") {
 				return nil
 			}
 		}
